@@ -43,6 +43,14 @@ def packbits_row(rng, row, style=None):
             j += 1
         runlen = j - i
         r = rng.random()
+        if style == 'max':
+            # greedy: the longest run (129 copies = control byte 0x80) or the longest literal (128 bytes = 0x7f)
+            if runlen >= 3:
+                out += bytes([257 - runlen, row[i]]); i += runlen
+            else:
+                k = min(128, n - i)
+                out += bytes([k - 1]) + bytes(row[i:i + k]); i += k
+            continue
         if runlen >= 2 and r < 0.6:
             k = rng.randrange(2, runlen + 1)
             out += bytes([257 - k, row[i]])
@@ -168,6 +176,34 @@ def gen_cases(rng, tier):
         rows = stored_rows(base)
         for s0 in all_segmentations(rows[0]):
             d = dict(base); d['segs'] = [s0]; yield d
+    # control-byte boundaries (seed C06_i): rows wide enough for a run of exactly 129 (control byte 0x80) and a
+    # literal of exactly 128 (0x7f), greedy encoding and a random re-encoding of the same image
+    for depth, w in ((8, 140), (16, 135), (32, 131), (1, 1100)):
+        for variant in range(2 if not thorough else 6):
+            c = mk(rng, depth, w, 2, 0, 0, enc='raw', padzero=True)
+            unit = 8 if depth == 1 else 1
+            cut = 129 * unit + (0 if variant % 2 == 0 else rng.randrange(0, w - 129 * unit))
+            def px(x, y):
+                a = (x >= cut) != (y == 1 and variant >= 2)
+                if variant % 2 == 1 and x < 128 * unit and y == 0:
+                    a = (x // unit) % 2 == 0          # alternating bytes: one literal of exactly 128
+                if depth == 1:
+                    return 1 if a else 0
+                if depth == 8:
+                    return 7 if a else 200
+                if depth == 16:
+                    return 0x1234 if a else 0x7fff
+                return [9, 255, 0, 77] if a else [1, 2, 3, 4]
+            c['pixels'] = [[px(x, y) for x in range(w)] for y in range(2)]
+            c['enc'] = 'rle'
+            rows = stored_rows(c)
+            planes = {16: 2, 32: 4}.get(depth, 1)
+            if planes > 1:
+                c['segs'] = [b''.join(packbits_row(rng, row[k * w:(k + 1) * w], 'max') for k in range(planes)) for row in rows]
+            else:
+                c['segs'] = [packbits_row(rng, row, 'max') for row in rows]
+            yield c
+            yield reencode(rng, c)
     n = 120 if not thorough else 3000
     for k in range(n):
         depth = rng.choice([1, 8, 8, 16, 32])
